@@ -66,9 +66,9 @@ Fixpoint mismatches_from {A} (chk : A -> bool) (i : nat) (l : list A) : list nat
 Definition mismatches (base : nat) (l : list rcase) : list nat := mismatches_from check_case base l.
 
 (* short constructor used by generated case files *)
-Definition mk_aop oid ty time num cref mdelta parse_ok reveal_c next_c sig_ok sfx_ok dhash_ok dvalid
+Definition mk_aop oid ty time num cref mdelta parse_ok reveal_c sig_ok sfx_ok dhash_ok dvalid
   patch_ok a_from a_until delta upd_c rec_c origin : aop :=
-  Build_aop oid ty time num cref mdelta parse_ok reveal_c next_c sig_ok sfx_ok dhash_ok dvalid
+  Build_aop oid ty time num cref mdelta parse_ok reveal_c sig_ok sfx_ok dhash_ok dvalid
     patch_ok a_from a_until delta upd_c rec_c origin.
 
 Definition mk_state doc upd rec deact last_t last_n created updated vid canon aorigin : state :=
